@@ -39,6 +39,7 @@ inductive Expr
   | and (a b : Expr)
   | or (a b : Expr)
   | not (a : Expr)
+  | group (a : Expr)                     -- `( a )`: parentheses the grammar does not need
 deriving Repr
 
 variable {N : Type}
@@ -114,6 +115,7 @@ def denote (ops : NumOps N) (rx : RegexOracle) (doc : J N) : Expr → Bool
   | .and a b => denote ops rx doc a && denote ops rx doc b
   | .or a b => denote ops rx doc a || denote ops rx doc b
   | .not a => !denote ops rx doc a
+  | .group a => denote ops rx doc a
 
 def litOrdered : Lit → Bool
   | .num _ => true
@@ -140,6 +142,7 @@ def wellTyped (ops : NumOps N) (rx : RegexOracle) (doc : J N) : Expr → Bool
   | .exists _ | .notExists _ => true
   | .and a b | .or a b => wellTyped ops rx doc a && wellTyped ops rx doc b
   | .not a => wellTyped ops rx doc a
+  | .group a => wellTyped ops rx doc a
 
 /-! ## the tree the parser builds for an expression -/
 
@@ -171,5 +174,6 @@ def Expr.ast : Expr → Node
   | .and a b => .expr a.ast b!"AND" b.ast
   | .or a b => .expr a.ast b!"OR" b.ast
   | .not a => .not a.ast
+  | .group a => a.ast
 
 end Syzgy.Query
